@@ -70,8 +70,32 @@ fn c15_ctype_step() {
     kani::cover!(len == 0 && !is_map);
 }
 
-/// The hash writer is byte-streaming: the hash depends only on the bytes
-/// written, not on how they are chunked (serde_json writes in pieces).
+/// The hash writer forwards exactly the bytes it is given, in order, whatever
+/// the chunking (serde_json writes the JSON in pieces): checked with a
+/// recording `Hasher`, so the claim is about the repository's `HasherWrite`, not
+/// about FNV arithmetic (two 64-bit multiplier chains compared for equality do
+/// not finish in CaDiCaL: 22 min probe).
+struct RecHasher {
+    bytes: [u8; 8],
+    n: usize,
+}
+
+impl Hasher for RecHasher {
+    fn finish(&self) -> u64 {
+        self.n as u64
+    }
+    fn write(&mut self, bytes: &[u8]) {
+        let mut i = 0;
+        while i < bytes.len() {
+            if self.n < 8 {
+                self.bytes[self.n] = bytes[i];
+            }
+            self.n += 1;
+            i += 1;
+        }
+    }
+}
+
 #[kani::proof]
 #[kani::unwind(8)]
 fn c07_hash_streaming() {
@@ -79,21 +103,23 @@ fn c07_hash_streaming() {
     let n: usize = kani::any();
     let cut: usize = kani::any();
     kani::assume(n <= 5 && cut <= n);
-    let mut one = FnvHasher::default();
+    let mut rec = RecHasher { bytes: [0; 8], n: 0 };
     {
-        let mut w = HasherWrite(&mut one);
-        w.write_all(&data[..n]).unwrap();
-    }
-    let mut two = FnvHasher::default();
-    {
-        let mut w = HasherWrite(&mut two);
+        let mut w = HasherWrite(&mut rec);
         let k = w.write(&data[..cut]).unwrap();
         assert!(k == cut, "write must report the whole buffer as consumed");
         w.write_all(&data[cut..n]).unwrap();
         w.flush().unwrap();
     }
-    assert!(one.finish() == two.finish(), "hash depends on how the JSON bytes are chunked");
-    // different single bytes give different hashes (FNV-1a step is injective in the byte)
+    assert!(rec.n == n, "the hasher must receive exactly as many bytes as were written");
+    let mut i = 0;
+    while i < 5 {
+        if i < n {
+            assert!(rec.bytes[i] == data[i], "the hasher must receive the written bytes unchanged and in order");
+        }
+        i += 1;
+    }
+    // one FNV-1a step distinguishes different bytes (single multiplication)
     let a: u8 = kani::any();
     let b: u8 = kani::any();
     let mut ha = FnvHasher::default();
@@ -119,28 +145,6 @@ fn c20_result_constants() {
     kani::cover!(k == 0);
 }
 
-/// The thread's last-error is replaced, not appended to, by a later failure,
-/// and cleared by wirefilter_clear_last_error (two-step history, symbolic text).
-#[kani::proof]
-#[kani::unwind(8)]
-fn c20_last_error_replaced() {
-    let a: [u8; 2] = [kani::any(), kani::any()];
-    let b: [u8; 2] = [kani::any(), kani::any()];
-    kani::assume(a[0] < 0x80 && a[1] < 0x80 && b[0] < 0x80 && b[1] < 0x80);
-    let sa = unsafe { std::str::from_utf8_unchecked(&a) };
-    let sb = unsafe { std::str::from_utf8_unchecked(&b) };
-    assert!(wirefilter_get_last_error().is_null(), "no error yet: NULL expected");
-    write_last_error!("{}", sa);
-    write_last_error!("{}", sb);
-    let p = wirefilter_get_last_error() as *const u8;
-    assert!(!p.is_null(), "an error was written");
-    let want = |c: u8| if c == 0 { 0x1a } else { c };
-    unsafe {
-        assert!(*p == want(b[0]) && *p.add(1) == want(b[1]) && *p.add(2) == 0,
-            "last-error must hold exactly the latest message, NUL-terminated");
-    }
-    wirefilter_clear_last_error();
-    assert!(wirefilter_get_last_error().is_null(), "cleared last-error must be NULL");
-    kani::cover!(b[0] == 0);
-    kani::cover!(a[0] != b[0]);
-}
+// A harness on `write_last_error!` twice in a row (the thread's last-error is replaced, not
+// appended to) was written and dropped: the thread-local `LAST_ERROR.with_borrow_mut` path
+// crashes kani-compiler (intrinsics.rs:243, the same crash as catch_unwind).
